@@ -551,6 +551,13 @@ def apply_body_rules(btxt, it, ctx, key, header_text=""):
         btxt = re.sub(r"\.to_be_bytes\(\)", ".vp_to_be_bytes()", btxt)
         log("R3", "%d x .to_be_bytes() -> .vp_to_be_bytes()" % n)
 
+    # R25: `for PAT in &PATH {` -> `for PAT in PATH.iter() {`  (IntoIterator for &Vec / &[T] / &HashMap / &BTreeSet is `iter()`)
+    rx25 = r"\bfor\s+([^{};]+?)\s+in\s+&((?:self|this|[a-z_]\w*)(?:\.[a-z_]\w*)*)\s*\{"
+    n = len(re.findall(rx25, btxt))
+    if n:
+        btxt = re.sub(rx25, r"for \1 in \2.iter() {", btxt)
+        log("R25", "%d x `for .. in &x {` -> `for .. in x.iter() {`" % n)
+
     # R3 (read side): uN::from_be_bytes(X) -> uN::vp_from_be_bytes(X)
     n = len(re.findall(r"\b(u16|u32|u64)::from_be_bytes\(", btxt))
     if n:
